@@ -1174,7 +1174,26 @@ def register_all(M):
                 k, v = kv.fields
                 entries.append([elems_of(k), v])
             return SMap("collected", entries)
+        if target == "Cow":
+            return Agg("adt:Cow", 1, [SString(out)])
         raise Unsupported("collect into %s" % target)
+
+    # Cow<str>: Borrowed(&str) = variant 0, Owned(String) = variant 1 (built by MIR aggregates or by collect)
+    def cow_inner(v):
+        v = deref(v)
+        if isinstance(v, Agg) and v.kind == "adt:Cow":
+            return deref(v.fields[0])
+        return v
+
+    @reg("Cow::deref", "Cow::as_ref", "Cow::borrow")
+    def m_cow_deref(it, args, callee):
+        inner = cow_inner(args[0])
+        return Str(list(inner.elems))
+
+    @reg("Cow::to_string", "Cow::into_owned", "Cow::to_owned")
+    def m_cow_to_string(it, args, callee):
+        inner = cow_inner(args[0])
+        return SString(list(inner.elems))
 
     @reg("Extend::extend")
     def m_extend(it, args, callee):
@@ -1499,6 +1518,12 @@ def register_all(M):
             if it.st.branch(it.call_value(args[1], [Ref([SString(e[0])], 0), Ref(e, 1, True)])):
                 keep.append(e)
         m.entries[:] = keep
+        if getattr(m, "extra", None) is not None:
+            # of the entries this run never names, any number may survive
+            n = it.st.counter = getattr(it.st, "counter", 0) + 1
+            left = it.st.sym_bv("%s_left_%d" % (m.name, n), 64)
+            it.st.assume(z3.ULE(left, bv(m.extra, 64)))
+            m.extra = left
         return UNIT
 
     @reg("HashMap::clear")
@@ -1506,6 +1531,7 @@ def register_all(M):
         m = deref(args[0])
         del m.entries[:]
         m.oracle = None
+        m.extra = None
         return UNIT
 
     @reg("HashMap::remove")
@@ -1521,6 +1547,8 @@ def register_all(M):
         m = deref(args[0])
         if m.oracle is not None:
             raise Unsupported("len of an oracle-backed map")
+        if getattr(m, "extra", None) is not None:
+            return add_vals(m.extra, len(m.entries))
         return len(m.entries)
 
     @reg("HashMap::is_empty")
@@ -1659,6 +1687,15 @@ def register_all(M):
                 "is_ascii_lowercase": list(range(0x61, 0x7b)), "is_ascii_uppercase": list(range(0x41, 0x5b)),
                 "is_ascii_punctuation": [x for x in range(0x21, 0x7f) if not chr(x).isalnum()]}[name]
         return m_str_contains(it, [Str(sets), c], "str::contains::<char>")
+
+    @reg("char::to_ascii_lowercase", "char::to_ascii_uppercase")
+    def m_char_ascii_case(it, args, callee):
+        c = deref(args[0])
+        lower = callee.strip().split("::")[-1].startswith("to_ascii_lower")
+        lo, hi, d = (0x41, 0x5a, 32) if lower else (0x61, 0x7a, -32)
+        if not is_sym(c):
+            return c + d if lo <= c <= hi else c
+        return simp(z3.If(z3.And(z3.UGE(c, lo), z3.ULE(c, hi)), c + d if d > 0 else c - (-d), c))
 
     # ----------------------------------------------------------------- dyn Method dispatch (RitiContext forwards through Box<dyn Method>)
     def dyn_method(name):
